@@ -8,7 +8,7 @@ LEVEL = "exploration"     # cases are drawn from the specification under the TLC
 
 
 def run(ctx):
-    n = 6000 if ctx.tier == "thorough" else 1500
+    n = 30000 if ctx.tier == "thorough" else 1500
     cases, res = rel.run_family(ctx, "group", n, "C03", "group by")
     rel.judge(ctx, cases, res, "C03", "group by", modes=("o", "n"))
     ctx.coverage["exhaustive"] = False
